@@ -15,8 +15,9 @@ Parsable(E)  == {i \in Idx(E) : ~E.variants[i].dis /\ ~E.variants[i].def}
 DefaultOf(E) == {i \in Idx(E) : ~E.variants[i].dis /\  E.variants[i].def}
 
 \* tables derived once per definition (trace validation keeps them in a state variable)
-Tables(E) == [sp  |-> [i \in Idx(E) |-> Spellings(E, E.variants[i])],
-              aci |-> [i \in Idx(E) |-> IsAci(E, E.variants[i])]]
+Tables(E) == [sp    |-> [i \in Idx(E) |-> Spellings(E, E.variants[i])],
+              aci   |-> [i \in Idx(E) |-> IsAci(E, E.variants[i])],
+              canon |-> IF NamesWF(E) THEN [i \in Idx(E) |-> CanonicalName(E, E.variants[i])] ELSE <<>>]
 
 MatchesT(T, i, s) == \E k \in 1..Len(T.sp[i]) :
                         IF T.aci[i] THEN EqAci(T.sp[i][k], s) ELSE T.sp[i][k] = s
